@@ -136,6 +136,22 @@ def memo_stores(fn: ast.FunctionDef):
                                  (isinstance(base, ast.Name) and base.id in memo_params)
                     if persistent:
                         stores.append((n, t, n.value))
+    # `return C.setdefault(k, v)` / `x = C.setdefault(k, v)`: check-then-insert and hand-back in one call (an interning pool)
+    pooled = []
+    for n in walk_no_nested(fn, include_root=False):
+        if isinstance(n, (ast.Return, ast.Assign)) and n.value is not None:
+            for c in ast.walk(n.value):
+                if isinstance(c, ast.Call) and isinstance(c.func, ast.Attribute) and c.func.attr == "setdefault" and len(c.args) == 2:
+                    base = c.func.value
+                    persistent = (isinstance(base, ast.Attribute) and norm(base.value) in ("self", "cls")) or \
+                                 (isinstance(base, ast.Name) and base.id not in loc) or \
+                                 (isinstance(base, ast.Name) and base.id in memo_params)
+                    if persistent:
+                        tgt = ast.Subscript(value=base, slice=c.args[0], ctx=ast.Store())
+                        ast.copy_location(tgt, c)
+                        pooled.append((n, tgt, c.args[1]))
+    for item in pooled:
+        yield item
     if not stores:
         return
     # handed back: a return (or an assignment that is returned) reading the same container
@@ -273,6 +289,22 @@ def check(repo: Repo, res: CheckResult, prop: str, only: Optional[Tuple[str, ...
                                     "objects themselves: two different requests with the same digest (hash(-1) == hash(-2); two classes "
                                     "with one repr) share the entry and the later one gets the answer of the earlier", st.lineno))
                     continue
+                # an interning pool: `C.setdefault(k, k)` hands back an object that is only EQUAL to the one just built. For an
+                # untyped collection of values of unknown types equality conflates 0 / False, 1 / True / 1.0, members of mixed-in
+                # enums and their plain values: whoever asked first decides what everybody gets
+                if norm(val) == norm(tgt.slice) and isinstance(val, ast.Name):
+                    built = _assigned_values(fn, val.id)
+                    coll = [b for b in built if isinstance(b, ast.Call) and norm(b.func) in ("frozenset", "tuple", "set", "list") and b.args]
+                    for b in coll:
+                        srcs = [x.id for x in ast.walk(b.args[0]) if isinstance(x, ast.Name) and x.id in params]
+                        untyped = [p_ for p_ in srcs if not re.search(r"\[\s*(str|bytes|type|int)\b", norm(anns.get(p_)) if anns.get(p_) is not None else "")]
+                        if untyped and not _typed_pairing(b):
+                            res.add(Finding(prop, "MEMO.pool-interns-by-equality", m.rel, q, norm(st)[:100],
+                                            f"`{norm(st)[:80]}` interns `{norm(b)}`: the pooled object is handed out for every EQUAL collection, "
+                                            f"and `{untyped[0]}` holds values of unknown types -- frozenset({{0, 1}}) == frozenset({{False, True}}): "
+                                            "what a later request gets (allowed values in an error, a table, a key) was built from the "
+                                            "values of whoever asked first, in any retort of the process", st.lineno))
+                            break
                 if exempt:
                     continue
                 if not missing:
